@@ -474,6 +474,7 @@ struct Forker {
 			size_t s = p + 25, e = err.find_first_of(" \n", s);
 			r.vkind = err.substr(s, e - s);
 			while (!r.vkind.empty() && r.vkind[r.vkind.size() - 1] == ':') r.vkind.erase(r.vkind.size() - 1);
+			if (r.vkind == "requested") r.vkind = "allocation-size-too-big";   // "requested allocation size 0x.. exceeds maximum supported size"
 			first = err.substr(p + 7, err.find('\n', p) - p - 7);
 			if (first.find(" (pc ") != std::string::npos) first = first.substr(0, first.find(" (pc "));
 			if (first.find(" at pc ") != std::string::npos) first = first.substr(0, first.find(" at pc "));
@@ -825,18 +826,27 @@ struct Catalogue {
 			std::vector<Field> F = split_fields(seed, delims);
 			if (F.size() <= pair_max_fields)
 			{
-				static const char *pn[] = { "0", "s", "neg" };
+				// values: 0, 1, negated, every special value (moduli, p-1 ...).  The combinations (0 | 1 | special) x negated, in both
+				// orders (a degenerate base / share together with a negative exponent / challenge), are never thinned (id prefix "x")
+				std::vector<std::string> pn;
+				pn.push_back("0"), pn.push_back("1"), pn.push_back("neg");
+				for (size_t k = 0; k < specials.size(); k++) pn.push_back("s" + drv::str(k));
+				auto pv = [&](size_t a, const std::string &fld) {
+					if (a == 0) return std::string("0");
+					if (a == 1) return std::string("1");
+					if (a == 2) return (!fld.empty() && fld[0] == '-') ? fld.substr(1) : "-" + fld;
+					return specials[a - 3];
+				};
 				for (size_t i = 0; i < F.size(); i++)
 				for (size_t j = i + 1; j < F.size() && j <= i + pair_window; j++)
-				for (int a = 0; a < 3; a++)
-				for (int b = 0; b < 3; b++)
+				for (size_t a = 0; a < pn.size(); a++)
+				for (size_t b = 0; b < pn.size(); b++)
 				{
-					if ((a == 1 || b == 1) && specials.empty()) continue;
+					if (a >= 4 && b >= 4) continue;   // two "other" specials at once: not enumerated
 					std::string fi = seed.substr(F[i].beg, F[i].len), fj = seed.substr(F[j].beg, F[j].len);
-					std::string vi = a == 0 ? "0" : a == 1 ? specials[0] : ((!fi.empty() && fi[0] == '-') ? fi.substr(1) : "-" + fi);
-					std::string vj = b == 0 ? "0" : b == 1 ? specials[0] : ((!fj.empty() && fj[0] == '-') ? fj.substr(1) : "-" + fj);
-					emit("p" + drv::str(i) + "." + drv::str(j) + ":" + pn[a] + "." + pn[b], std::string("pair-") + pn[a] + "-" + pn[b],
-						PL().r(0, F[i].beg).l(vi).r(F[i].beg + F[i].len, F[j].beg).l(vj).r(F[j].beg + F[j].len, N));
+					bool core = ((a == 2) != (b == 2)) && F.size() <= 12;   // short transcripts only (CP / OR / NIZK / decryption proofs)
+					emit(std::string(core ? "x" : "") + "p" + drv::str(i) + "." + drv::str(j) + ":" + pn[a] + "." + pn[b], "pair-" + pn[a] + "-" + pn[b],
+						PL().r(0, F[i].beg).l(pv(a, fi)).r(F[i].beg + F[i].len, F[j].beg).l(pv(b, fj)).r(F[j].beg + F[j].len, N));
 				}
 			}
 		}
